@@ -140,14 +140,54 @@ def run(ctx):
         ct = cc.call_sites('column::HashColumn::claim_tree_values')
         um = [bi for bi, t in cc.calls() if call_matches(t, ['re:HashSet.*::insert$']) and '.IndexedChangeSet.used_trees' in lib.receiver_fields(cc, t, 0)]
         lk = [bi for bi, t in cc.calls() if call_matches(t, ['re:RwLock.*::read$']) and '.DbInner.trees' in lib.receiver_fields(cc, t, 0)]
-        ctx.ob('1h0 marking-anchors', 'anchor', cc.path, 'the InsertTree arm claims the nodes, then scans the registry (trees.read) and marks used trees', len(ct) == 1 and len(um) == 1 and len(lk) >= 1, '%s %s %s' % (ct, um, lk))
-        if ct and lk:
-            lib.must_pass(ctx, '1h every-inserted-tree-is-checked-against-pending-dereferences', cc, [l for l in lk if l in cc.reaches(ct[0])],
-                          'after the nodes of an InsertTree were claimed, every success path scans the pending dereferences / locked readers (no shortcut based on the shape of the new tree: shared nodes can sit at any depth)',
-                          sources=ct)
-        for s2 in um:
-            calls, fields, binops = lib.guard_influences(cc, s2)
-            ctx.ob('1h2 marking-decided-by-reader-lock', 'K3-guard', cc.path, 'a tree is marked as used depending on RwLock::is_locked of its registered reader', any(re.search(r'RwLock.*::is_locked$', c) for c in lib.shallow_calls(F, calls, owner=cc.path)), '')
+        if um:
+            # shape 1: the InsertTree arm itself scans the registry right after it claimed the nodes
+            ctx.ob('1h0 marking-anchors', 'anchor', cc.path, 'the InsertTree arm claims the nodes, then scans the registry (trees.read) and marks used trees', len(ct) == 1 and len(um) == 1 and len(lk) >= 1, '%s %s %s' % (ct, um, lk))
+            if ct and lk:
+                lib.must_pass(ctx, '1h every-inserted-tree-is-checked-against-pending-dereferences', cc, [l for l in lk if l in cc.reaches(ct[0])],
+                              'after the nodes of an InsertTree were claimed, every success path scans the pending dereferences / locked readers (no shortcut based on the shape of the new tree: shared nodes can sit at any depth)',
+                              sources=ct)
+            mark_bodies = [(cc, um)]
+        else:
+            # shape 2: the marks are computed where the commit is queued (commit_raw), for every column set of the commit that
+            # carries new-tree node changes; commit_changes hands every commit to that function
+            mbs = {}
+            for b2 in F.bodies.values():
+                for x, t in b2.calls():
+                    if x in b2.normal_blocks() and call_matches(t, ['re:HashSet.*::insert$']) and t['a'] and '.IndexedChangeSet.used_trees' in lib.receiver_fields(b2, t, 0):
+                        mbs.setdefault(b2.path, []).append(x)
+            mark_bodies = [(F.body(k), v) for k, v in sorted(mbs.items())]
+            ok0 = len(mark_bodies) == 1 and len(ct) == 1
+            ctx.ob('1h0 marking-anchors', 'anchor', cc.path, 'the InsertTree arm claims the nodes; the function that queues the commit scans the registry (trees.read) and marks used trees', ok0, '%s %s' % (ct, sorted(mbs)))
+            for mb, ums in mark_bodies:
+                lk2 = [bi for bi, t in mb.calls() if call_matches(t, ['re:RwLock.*::read$']) and '.DbInner.trees' in lib.receiver_fields(mb, t, 0)]
+                loops = [lp for lp in lib.for_loops_over(mb, '.CommitChangeSet.indexed')
+                         if any(x in mb.reachable_from([lp['some']], removed={lp['head']}) for x in ums)]      # the loop the marks are made in
+                loops = [lp for lp in loops if not any(l2 is not lp and lp['head'] in mb.reachable_from([l2['some']], removed={l2['head']}) for l2 in loops)]   # outermost
+                reach = lib.sites_reaching(cc, [mb.path])
+                lib.must_pass(ctx, '1h1 every-commit-reaches-the-marking', cc, reach, 'every accepted change set is handed to the function that computes the marks')
+                w = ['?']
+                for lp in loops:
+                    region = mb.reachable_from([lp['some']], removed={lp['head']})
+                    # the only allowed way round the scan: a test of whether the set carries new-tree node changes at all
+                    skips = set()
+                    for bi in region:
+                        t = mb.term(bi)
+                        if t['k'] == 'switch' and op_place(t['a']) is not None:
+                            sl = backward_slice(mb, [op_place(t['a'])])
+                            fl = set(sl.fields) | lib.closure_fields(F, lib.shallow_calls(F, sl.calls, owner=mb.path))
+                            shape = [f for f in fl if 'NewNode' in f or 'Children' in f or 'NodeRef' in f]
+                            if '.IndexedChangeSet.node_changes' in fl and not shape:
+                                skips.add(bi)
+                    w = mb.find_path([lp['some']], {lp['head']}, removed=set(lk2) | skips)
+                ctx.ob('1h every-inserted-tree-is-checked-against-pending-dereferences', 'K2-loop-order', mb.path,
+                       'for every column set of the commit that carries new-tree node changes the pending dereferences / locked readers are scanned (the only way round the scan is the test "no such node changes"; no shortcut based on the shape of the new tree)',
+                       bool(loops) and bool(lk2) and w is None, '' if w is None else 'iteration that skips the scan: %s' % (lib.short_path(mb, w) if isinstance(w[0], int) else 'no loop over the column sets'))
+        for mb, ums in mark_bodies:
+            for s2 in ums:
+                calls, fields, binops = lib.guard_influences(mb, s2)
+                calls = set(calls) | set(c for c in lib.shallow_calls(F, calls, owner=mb.path))
+                ctx.ob('1h2 marking-decided-by-reader-lock', 'K3-guard', mb.path, 'a tree is marked as used depending on RwLock::is_locked of its registered reader', any(re.search(r'RwLock.*::is_locked$', c) for c in calls), '')
         inc = [bi for bi, t in cc.calls() if bi in cc.normal_blocks() and call_matches(t, COUNTER_MUT) and '.Trees.to_dereference' in lib.receiver_fields(cc, t, 0)]
         ctx.ob('4b one-increment-per-DereferenceTree', 'anchor', cc.path, 'commit_changes increments to_dereference', len(inc) >= 1, str(inc))
         for s in inc:
@@ -171,6 +211,16 @@ def run(ctx):
     # once the lock is released the postponed removal completes: the log worker keeps going while a deferred commit is queued
     shared.more_work_signal(ctx, '3w')
     shared.deferral_is_surgical(ctx, '3')
+    # the used_trees mark of a commit is what makes a removal of a tree it shares nodes with wait. It has to be computed where the
+    # queue position of the commit is decided - with the commit queue locked: a removal counted in to_dereference by then is seen,
+    # a later one is queued behind the commit. Computed earlier (while the transaction is converted), a removal committed in the gap
+    # is queued AHEAD of the commit and finds no mark (F53)
+    msites = [(b, x) for b in F.bodies.values() for x, t in b.calls() if x in b.normal_blocks() and call_matches(t, ['re:HashSet.*::insert$', 're:HashSet.*::extend$'])
+              and t['a'] and '.IndexedChangeSet.used_trees' in lib.receiver_fields(b, t, 0)]
+    ctx.ob('1m0 used-trees-mark-sites', 'anchor', 'db::DbInner', 'the site that marks the trees a commit may share nodes with was found', len(msites) >= 1, str([(b.path, x) for b, x in msites]))
+    for b, x in msites:
+        lib.held_at(ctx, '1m used-trees-marked-under-the-queue-lock %s' % lib.strip_closures(b.path), b, x, '.DbInner.commit_queue',
+                    'the used_trees marks of a commit are computed with the commit queue locked (between the look at to_dereference and the push onto the queue no removal can be committed)')
     shared.no_mutual_deferral(ctx, '3z')
     # a removal that waits can be overtaken by a LATER commit that writes the same root (InsertTree / ReferenceTree / DereferenceTree of
     # the key): the later one is planned first, then the postponed removal is applied to whatever root it finds - the final state is not
